@@ -5,6 +5,7 @@ import (
 	"flag"
 	"fmt"
 	"os"
+	"runtime/pprof"
 	"sort"
 	"strconv"
 	"time"
@@ -38,6 +39,12 @@ func main() {
 		if s := os.Getenv("VERIF_SEED"); s != "" {
 			seed, _ = strconv.ParseInt(s, 10, 64)
 		}
+		if pf := os.Getenv("C4EMC_CPUPROFILE"); pf != "" { // development aid
+			if f, err := os.Create(pf); err == nil {
+				_ = pprof.StartCPUProfile(f)
+				defer pprof.StopCPUProfile()
+			}
+		}
 		rc := &props.RunCtx{ID: id, Tier: *tier, Seed: seed, Workers: *workers, Start: time.Now(), Level: c.Level}
 		budget := 6 * time.Minute
 		if *tier == "thorough" {
@@ -46,7 +53,9 @@ func main() {
 		rc.Deadline = rc.Start.Add(budget)
 		props.Active = rc
 		c.Run(rc)
-		os.Exit(rc.Finish())
+		code := rc.Finish()
+		pprof.StopCPUProfile()
+		os.Exit(code)
 	case "replay":
 		if len(os.Args) < 3 {
 			usage()
